@@ -259,7 +259,9 @@ func (c *Ctx) Family(name string, n int, fn func(k *Case)) {
 		k := &Case{Ctx: c, Family: name, Index: i,
 			R: NewRng(uint64(c.Seed), StrSeed(c.Prop), StrSeed(name), uint64(i))}
 		c.walWrite(name, i)
+		caseBegin(name, i)
 		fn(k)
+		caseEnd()
 	}
 	if c.Only != nil {
 		if c.Only.Family == name && c.Only.Index < n {
@@ -389,3 +391,49 @@ type PropFunc func(c *Ctx)
 var Props = map[string]PropFunc{}
 
 func Register(id string, f PropFunc) { Props[id] = f }
+
+// ---------------------------------------------------------------------------
+// per-case watchdog: a case that does not return within the limit makes the
+// child print WATCHDOG <family> <index> and exit 4; the runner then replays that
+// single case alone and only a reproduced expiry becomes a violation.
+
+var (
+	wdMu    sync.Mutex
+	wdName  string
+	wdIndex int
+	wdStart time.Time
+	wdLimit = 30 * time.Second
+)
+
+func caseBegin(name string, i int) {
+	wdMu.Lock()
+	wdName, wdIndex, wdStart = name, i, time.Now()
+	wdMu.Unlock()
+}
+
+func caseEnd() {
+	wdMu.Lock()
+	wdStart = time.Time{}
+	wdMu.Unlock()
+}
+
+// StartWatchdog arms the per-case watchdog (limit <= 0 keeps the default).
+func StartWatchdog(limit time.Duration) {
+	if limit > 0 {
+		wdLimit = limit
+	}
+	go func() {
+		for {
+			time.Sleep(250 * time.Millisecond)
+			wdMu.Lock()
+			st, name, idx := wdStart, wdName, wdIndex
+			wdMu.Unlock()
+			if !st.IsZero() && time.Since(st) > wdLimit {
+				buf := make([]byte, 1<<16)
+				n := runtime.Stack(buf, true)
+				fmt.Fprintf(os.Stderr, "WATCHDOG %s %d did not return within %v\n%s\n", name, idx, wdLimit, buf[:n])
+				os.Exit(4)
+			}
+		}
+	}()
+}
